@@ -29,7 +29,8 @@ type Scenario struct {
 	Plimit   int   `json:"produce_fails_at"`   // -1, or the produce call that returns an error (LIMIT / downstream error)
 	ExtAt    int   `json:"ctx_cancel_at"`      // -1, or the produce call during which the caller cancels ctx
 	ExtAfter int   `json:"ctx_cancel_after_us"` // -1, or cancel ctx from a timer after this many microseconds
-	StallUs  int   `json:"consumer_stall_us"`  // the first produce call sleeps this long (lets the reader run into the token limit)
+	StallUs  int   `json:"consumer_stall_us"`  // the first produce call sleeps this long
+	StallTok int   `json:"consumer_stall_until_tokens"` // the first produce call waits until the reader holds this many tokens (at most 3 s)
 	Delay    int   `json:"delay_profile"`      // 0 none, 1 yields, 2 slow workers, 3 slow consumer, 4 slow reader
 }
 
@@ -60,8 +61,8 @@ func genScenario(r *lib.Rng, big bool, batch, capTok int) Scenario {
 	edge := []int{0, 1, 2, batch - 1, batch, batch + 1, 2*batch - 1, 2 * batch, 2*batch + 1, 3 * batch}
 	switch {
 	case big:
-		s.N = batch*capTok + batch + r.Intn(20*batch)
-		s.StallUs = 20000 + r.Intn(30000)
+		s.N = batch*capTok + batch*(4+r.Intn(16)) + r.Intn(batch)
+		s.StallTok = capTok
 	case r.Chance(1, 3):
 		s.N = edge[r.Intn(len(edge))]
 	case r.Chance(1, 2):
@@ -80,7 +81,7 @@ func genScenario(r *lib.Rng, big bool, batch, capTok int) Scenario {
 	}
 	if r.Chance(1, 3) || (big && r.Chance(1, 2)) {
 		if big {
-			s.Plimit = r.Intn(3 * batch)
+			s.Plimit = r.Intn(batch) // inside the first batch: at most one token has been released
 		} else {
 			s.Plimit = r.Intn(s.N + 2)
 		}
@@ -123,7 +124,7 @@ func writeFile(path string, s Scenario) error {
 var errInjectedProduce = errors.New("verif: injected produce failure")
 
 var coqLabel = map[string]string{
-	"scan": "JScan", "eof": "JEof", "tok": "JTok", "rcancel": "JRCancel", "enq": "JEnq", "done": "JDone",
+	"tok": "JTok", "rcancel": "JRCancel", "enq": "JEnq", "done": "JDone",
 	"tokrel": "JTokRel", "produce": "JProduce", "produceerr": "JProduceErr",
 	"parseerr": "JParseErr", "procend": "JProcEnd", "recvdone": "JRecvDone", "ctx": "JCtx", "ext": "JExt",
 }
@@ -252,6 +253,23 @@ func runScenario(dir string, idx int, s Scenario, r *lib.Rng, w int) ChildCase {
 		if k == 0 && s.StallUs > 0 {
 			time.Sleep(time.Duration(s.StallUs) * time.Microsecond)
 		}
+		if k == 0 && s.StallTok > 0 {
+			// stalled consumer: the reader runs until the token channel is full and waits there
+			for t0 := time.Now(); time.Since(t0) < 3*time.Second; time.Sleep(2 * time.Millisecond) {
+				held := 0
+				for _, e := range jsonds.VerifTraceSnapshot() {
+					if e.Event == "tok" {
+						held++
+					} else if e.Event == "tokrel" {
+						held--
+					}
+				}
+				if held >= s.StallTok {
+					time.Sleep(2 * time.Millisecond)
+					break
+				}
+			}
+		}
 		if k == s.ExtAt {
 			fireExt()
 		}
@@ -308,7 +326,7 @@ func runScenario(dir string, idx int, s Scenario, r *lib.Rng, w int) ChildCase {
 	// an `eof` before all lines were scanned, or a `done` carrying an error that the file does not explain, is the
 	// scan loop ending on the file that Run's deferred f.Close() closed: label JEofClosed (the LTS allows it only
 	// after Run has returned)
-	closedEof := cc.Counts["scan"] < cc.ScanN
+	closedEof := cc.Counts["scan"] != cc.ScanN
 	for _, e := range evs {
 		if e.Event == "done" && e.Args[0] == 1 && !cc.Rerr {
 			closedEof = true
@@ -316,8 +334,18 @@ func runScenario(dir string, idx int, s Scenario, r *lib.Rng, w int) ChildCase {
 	}
 	norm, swaps := normalise(evs)
 	cc.Swaps = swaps
+	scans := 0
 	for _, e := range norm {
 		switch e.Event {
+		case "scan":
+			// one token beyond what the file holds is the truncated line bufio.Scanner returns when the file was
+			// closed under it (the LTS allows it once, after Run returned)
+			scans++
+			if scans > cc.ScanN {
+				cc.Trace = append(cc.Trace, "JScanTrunc")
+			} else {
+				cc.Trace = append(cc.Trace, "JScan")
+			}
 		case "send", "drop", "take", "recv":
 			cc.Trace = append(cc.Trace, fmt.Sprintf("%s (nn %d)", map[string]string{"send": "JSend", "drop": "JDrop", "take": "JTake", "recv": "JRecv"}[e.Event], e.Args[0]))
 		case "rexit": // only used for the quiescence test
